@@ -59,7 +59,13 @@ func (con *Connection) EncryptedWrite(b []byte) (int, error) {
 	var buffer bytes.Buffer
 	buffer.Write(b)
 	verifYield("write:pre-seal", b)
-	encrypted, err := con.getEncrypter().Encrypt(&buffer)
+	encrypter := con.getEncrypter()
+	if encrypter == nil {
+		// The session was removed since the caller checked for it: the connection was closed
+		return 0, io.ErrClosedPipe
+	}
+
+	encrypted, err := encrypter.Encrypt(&buffer)
 
 	if err != nil {
 		log.Info.Panic("Encryption failed:", err)
